@@ -1,11 +1,12 @@
 import Pywbem.Model.Store
-import Pywbem.Model.StoreSpec
+import Pywbem.Model.StoreClient
+import Pywbem.Model.StoreAlias
 open Lean Pywbem.Proto Pywbem.Model.Store
 
 abbrev SName := Pywbem.Model.Store.Name
 
 /-! C10 driver.  One request = one history:
-  {"dflt":str,"nss":[{"name":str,"classes":[cls,…]}],"ops":[op,…]}        (str = code point array)
+  {"dflt":str,"nss":[{"name":str,"classes":[cls,…]}],"calls":[call,…]}     (str = code point array; calls: see parseCall)
   cls  = {"name":str,"super":str|null,"assoc":bool,"props":[{"n":str,"t":"uint8",…,"a":bool,"key":bool,"d":val}]}
   op   = {"op":"create","ns":str|null,"inst":inst} | {"op":"modify","path":path,"inst":inst,"pl":[str]|null}
        | {"op":"delete","path":path} | {"op":"get","path":path,"pl":[str]|null}
@@ -80,19 +81,21 @@ def parseProp (j : Json) : Option PropV := do
   let n ← getChars j "n"
   let t ← getChars j "t"
   let v ← parseVal (getField j "v")
-  some { name := n, ty := t, isArr := (getBool j "a").getD false, val := v }
+  some { name := n, ty := t, isArr := (getBool j "a").getD false, val := v,
+         origin := optChars j "co", quals := (getBool j "q").getD false, propagated := getBool j "pg" }
 
 def parseInst (j : Json) : Option Inst := do
   let c ← getChars j "c"
   let ps ← (getArr j "p").mapM parseProp
-  some { cls := c, props := ps }
+  some { cls := c, props := ps, quals := (getBool j "q").getD false }
 
 def parseDecl (j : Json) : Option PropDecl := do
   let n ← getChars j "n"
   let t ← getChars j "t"
   let d ← parseVal (getField j "d")
   some { name := n, ty := t, isArr := (getBool j "a").getD false, isKey := (getBool j "key").getD false, dflt := d,
-         embInst := optChars j "ei", embObj := (getBool j "eo").getD false }
+         embInst := optChars j "ei", embObj := (getBool j "eo").getD false,
+         propagated := (getBool j "pg").getD false }
 
 def parseCls (j : Json) : Option Cls := do
   let n ← getChars j "name"
@@ -110,14 +113,71 @@ def parsePl (j : Json) : Option (Option (List SName)) :=
   | .arr a => (a.toList.mapM jsonToChars?).map some
   | _ => none
 
-def parseOp (j : Json) : Option Op :=
-  match getStr j "op" with
-  | some "create" => do some (.create (optChars j "ns") (← parseInst (getField j "inst")))
-  | some "modify" => do some (.modify (← parsePath (getField j "path")) (← parseInst (getField j "inst")) (← parsePl j))
-  | some "delete" => do some (.delete (← parsePath (getField j "path")))
-  | some "get" => do some (.get (← parsePath (getField j "path")) (← parsePl j))
-  | some "enum" => do some (.enumInsts (optChars j "ns") (← getChars j "cls") (getBool j "di") (← parsePl j))
-  | some "names" => do some (.enumNames (optChars j "ns") (← getChars j "cls"))
+def isOther (j : Json) : Bool :=
+  match getField j "other" with
+  | Json.null => false
+  | _ => true
+
+def parseNsArg (j : Json) : Option NsArg :=
+  match j with
+  | Json.null => some NsArg.none
+  | Json.arr _ => (jsonToChars? j).map NsArg.str
+  | x => if isOther x then some NsArg.other else none
+
+def parseBoolArg (j : Json) : Option BoolArg :=
+  match j with
+  | Json.null => some BoolArg.none
+  | Json.bool b => some (BoolArg.bool b)
+  | x => if isOther x then some BoolArg.other else none
+
+def parsePlArg (j : Json) : Option PlArg :=
+  match j with
+  | Json.null => some PlArg.none
+  | Json.arr a => (a.toList.mapM jsonToChars?).map PlArg.list
+  | x =>
+    if isOther x then some PlArg.other
+    else match getField x "baditem", getField x "s" with
+      | Json.null, Json.null => none
+      | Json.null, sj => (jsonToChars? sj).map PlArg.str
+      | _, _ => some PlArg.listBadItem
+
+def parseNameArg (j : Json) : Option NameArg :=
+  if isOther j then some NameArg.other else (parsePath j).map NameArg.path
+
+def parseClsArg (j : Json) : Option ClsArg :=
+  match j with
+  | Json.arr _ => (jsonToChars? j).map ClsArg.str
+  | x =>
+    if isOther x then some ClsArg.other
+    else do some (ClsArg.clsName (← getChars x "cn") (optChars x "ns"))
+
+def parseInstArg (j : Json) (jp : Json) : Option InstArg :=
+  if isOther j then some InstArg.other
+  else do
+    let i ← parseInst j
+    match jp with
+    | Json.null => some (InstArg.inst i none)
+    | pj => do some (InstArg.inst i (some (← parsePath pj)))
+
+/-- call = {"call":"create","inst":inst|other,"ipath":path|null,"ns":nsarg}
+        | {"call":"modify","inst":…,"ipath":…,"iq":boolarg,"pl":plarg} | {"call":"delete","name":namearg}
+        | {"call":"get","name":namearg,"lo":…,"iq":…,"ico":…,"pl":…}
+        | {"call":"enum","cls":clsarg,"ns":nsarg,"lo":…,"di":…,"iq":…,"ico":…,"pl":…} | {"call":"names","cls":…,"ns":…}
+   nsarg = null | str | {"other":true};  boolarg = null | bool | {"other":true}
+   plarg = null | {"s":str} | [str,…] | {"baditem":true} | {"other":true};  namearg = path | {"other":true}
+   clsarg = str | {"cn":str,"ns":str|null} | {"other":true} -/
+def parseCall (j : Json) : Option Call :=
+  match getStr j "call" with
+  | some "create" => do some (.createInstance (← parseInstArg (getField j "inst") (getField j "ipath")) (← parseNsArg (getField j "ns")))
+  | some "modify" => do some (.modifyInstance (← parseInstArg (getField j "inst") (getField j "ipath"))
+                            (← parseBoolArg (getField j "iq")) (← parsePlArg (getField j "pl")))
+  | some "delete" => do some (.deleteInstance (← parseNameArg (getField j "name")))
+  | some "get" => do some (.getInstance (← parseNameArg (getField j "name")) (← parseBoolArg (getField j "lo"))
+                         (← parseBoolArg (getField j "iq")) (← parseBoolArg (getField j "ico")) (← parsePlArg (getField j "pl")))
+  | some "enum" => do some (.enumerateInstances (← parseClsArg (getField j "cls")) (← parseNsArg (getField j "ns"))
+                          (← parseBoolArg (getField j "lo")) (← parseBoolArg (getField j "di")) (← parseBoolArg (getField j "iq"))
+                          (← parseBoolArg (getField j "ico")) (← parsePlArg (getField j "pl")))
+  | some "names" => do some (.enumerateInstanceNames (← parseClsArg (getField j "cls")) (← parseNsArg (getField j "ns")))
   | _ => none
 
 /-! output -/
@@ -149,13 +209,15 @@ def valToJson : Val → Json
   | .emb b c t => Json.mkObj [("e", Json.arr #[Json.bool b, cpsToJson c, cpsToJson t])]
 
 def propToJson (p : PropV) : Json :=
-  Json.mkObj [("n", cpsToJson p.name), ("t", cpsToJson p.ty), ("a", p.isArr), ("v", valToJson p.val)]
+  Json.mkObj [("n", cpsToJson p.name), ("t", cpsToJson p.ty), ("a", p.isArr), ("v", valToJson p.val),
+    ("co", optName p.origin), ("q", p.quals), ("pg", optToJson (fun (b : Bool) => (b : Json)) p.propagated)]
 
 def instToJson (i : Inst) : Json :=
-  Json.mkObj [("c", cpsToJson i.cls), ("p", Json.arr (i.props.map propToJson).toArray)]
+  Json.mkObj [("c", cpsToJson i.cls), ("p", Json.arr (i.props.map propToJson).toArray), ("q", i.quals)]
 
 def rinstToJson (i : RInst) : Json :=
-  Json.mkObj [("c", cpsToJson i.cls), ("path", pathToJson i.path), ("p", Json.arr (i.props.map propToJson).toArray)]
+  Json.mkObj [("c", cpsToJson i.cls), ("path", pathToJson i.path), ("p", Json.arr (i.props.map propToJson).toArray),
+    ("q", i.quals)]
 
 def outToJson : Out → Json
   | .path p => Json.mkObj [("ok", Json.mkObj [("path", pathToJson p)])]
@@ -171,14 +233,72 @@ def stateToJson (r : Repo) : Json :=
        ("inst", instToJson s.inst)])).toArray)])).toArray
 
 def handle (j : Json) : Json :=
-  match (getArr j "nss").mapM parseNs, (getArr j "ops").mapM parseOp, getChars j "dflt" with
-  | some nss, some ops, some d =>
+  match (getArr j "nss").mapM parseNs, (getArr j "calls").mapM parseCall, getChars j "dflt" with
+  | some nss, some calls, some d =>
     let r0 : Repo := { nss := nss, dflt := d }
-    let (r, outs) := run r0 ops
-    let sp := Pywbem.Model.StoreSpec.run (Pywbem.Model.StoreSpec.abs r0) ops
+    let (r, outs) := runCalls r0 calls
+    let sp := Pywbem.Model.StoreSpec.runCalls (Pywbem.Model.StoreSpec.abs r0) calls
     Json.mkObj [("outs", Json.arr (outs.map outToJson).toArray), ("state", stateToJson r),
                 ("specAgrees", decide (outs.map Pywbem.Model.StoreSpec.normOut = sp.2
                                        ∧ Pywbem.Model.StoreSpec.abs r = sp.1))]
   | _, _, _ => Json.mkObj [("bad", "request")]
 
-def main : IO Unit := runDriver handle
+/-! alias mode: {"alias":[aop,…]} with
+   aop = {"a":"create","x":insto,"keys":[n,…]} | {"a":"modify","x":insto,"idx":n,"others":n} | {"a":"delete","idx":n}
+       | {"a":"get","name":patho,"idx":n} | {"a":"enumInsts","idxs":[n,…]} | {"a":"enumNames","idxs":[n,…]}
+   insto = {"id":n,"props":[{"id":n,"vals":[n,…]}],"path":patho|null}, patho = {"id":n,"kids":[n,…]}  (client node numbers)
+   Answer: {"steps":[{"handed":k,"sharedWithInput":k,"sharedWithEarlier":k,"storeDisjoint":bool},…]} -/
+
+namespace AliasDrv
+open Pywbem.Model.StoreAlias
+
+def cli (j : Json) : Option Id := (jsonToNat? j).map Id.cli
+
+def parsePathO (j : Json) : Option PathO := do
+  some { id := (← cli (getField j "id")), kids := (← (getArr j "kids").mapM cli) }
+
+def parseInstO (j : Json) : Option InstO := do
+  let ps ← (getArr j "props").mapM (fun pj => do
+    some ({ id := (← cli (getField pj "id")), vals := (← (getArr pj "vals").mapM cli) } : PropO))
+  let path ← match getField j "path" with
+    | Json.null => some none
+    | pj => (parsePathO pj).map some
+  some { id := (← cli (getField j "id")), props := ps, path := path }
+
+def nats (j : Json) (k : String) : List Nat := (getArr j k).filterMap jsonToNat?
+
+def parseAOp (j : Json) : Option AOp :=
+  match getStr j "a" with
+  | some "create" => do some (.create (← parseInstO (getField j "x")) (nats j "keys"))
+  | some "modify" => do some (.modify (← parseInstO (getField j "x")) ((getNat j "idx").getD 0) ((getNat j "others").getD 0))
+  | some "delete" => some (.delete ((getNat j "idx").getD 0))
+  | some "get" => do some (.get (← parsePathO (getField j "name")) ((getNat j "idx").getD 0))
+  | some "enumInsts" => some (.enumInsts (nats j "idxs"))
+  | some "enumNames" => some (.enumNames (nats j "idxs"))
+  | _ => none
+
+def stepsJson (s : AState) : List AOp → List Json
+  | [] => []
+  | op :: t =>
+    let s' := stepA {} s op
+    let handed := s'.client.drop s.client.length
+    let inp := op.inputIds
+    let j := Json.mkObj [("handed", (handed.length : Nat)),
+      ("sharedWithInput", ((handed.filter (fun i => inp.contains i)).length : Nat)),
+      ("sharedWithEarlier", ((handed.filter (fun i => s.client.contains i)).length : Nat)),
+      ("storeDisjoint", decide (∀ i ∈ storeIds s', i ∉ s'.client ++ inp))]
+    j :: stepsJson s' t
+
+def handleAlias (j : Json) : Json :=
+  match (getArr j "alias").mapM parseAOp with
+  | some ops => Json.mkObj [("steps", Json.arr (stepsJson {} ops).toArray)]
+  | none => Json.mkObj [("bad", "alias request")]
+
+end AliasDrv
+
+def handleAny (j : Json) : Json :=
+  match getField j "alias" with
+  | Json.null => handle j
+  | _ => AliasDrv.handleAlias j
+
+def main : IO Unit := runDriver handleAny
